@@ -216,6 +216,51 @@ def planted_twosided(rng):
                        wit={'x': x0, 's': sl, 'z': z0, 'y': []})
     raise RuntimeError('no two-sided instance found')
 
+def planted_qp_few(rng):
+    """strictly feasible cone QP with more variables than (packed) cone rows plus equality constraints: only P makes [P; A; G] full rank"""
+    for _ in range(200):
+        n = rng.randint(3, 6)
+        dims = rng.choice([{'l': rng.randint(0, 2), 'q': [], 's': []}, {'l': rng.randint(0, 1), 'q': [rng.randint(2, 3)], 's': []},
+                           {'l': 0, 'q': [], 's': [rng.randint(1, 2)]}, {'l': 1, 'q': [2], 's': [1]}])
+        N = cdim(dims); packed = dims['l'] + sum(dims['q']) + sum(k * (k + 1) // 2 for k in dims['s'])
+        p = rng.randint(0, 1)
+        if packed + p >= n: continue
+        G = [sym_vector(rng, dims) for _ in range(n)]
+        A = [[rint(rng) for _ in range(p)] for _ in range(n)]
+        if rank_rows(A, p) != p: continue
+        r_ = rng.randint(0, n); B = [[rint(rng, 2) for _ in range(r_)] for _ in range(n)]
+        P = [[sum(B[i][t] * B[j][t] for t in range(r_)) + (1.0 if i == j else 0.0) for i in range(n)] for j in range(n)]      # B'B + I, by columns
+        x0 = [rint(rng, 2) for _ in range(n)]; s0 = interior_point(rng, dims)
+        h = [a + b for a, b in zip(matvec(G, x0), s0)] if N else []
+        b = matvec(A, x0) if p else []
+        z0 = interior_point(rng, dims); y0 = [rint(rng, 2) for _ in range(p)]
+        Px0 = matvec(P, x0)
+        c = [-(a + bb + pp) for a, bb, pp in zip(mattvec(G, z0) if N else [0.0] * n, mattvec(A, y0) if p else [0.0] * n, Px0)]
+        return Planted(kind='optimal', c=c, G=G, h=h, A=A, b=b, dims=dims, n=n, p=p, N=N, P=P, wit={'x': x0, 's': s0, 'z': z0, 'y': y0})
+    raise RuntimeError('no instance found')
+
+def planted_sparse_lp(rng, qp=False):
+    """a larger componentwise LP / QP with equality constraints and a sparse G and A (about half of the entries zero): the sparse Cholesky
+    path of the default KKT solver then works with a fill-reducing permutation that is not the identity"""
+    for _ in range(200):
+        n = rng.randint(5, 8); m = rng.randint(n + 2, n + 6); p = rng.randint(1, 3)
+        dims = {'l': m, 'q': [], 's': []}
+        G = [[(rint(rng) if rng.random() < 0.45 else 0.0) for _ in range(m)] for _ in range(n)]
+        A = [[(rint(rng) if rng.random() < 0.6 else 0.0) for _ in range(p)] for _ in range(n)]
+        if rank_cols(G, [[] for _ in range(n)]) != n or rank_rows(A, p) != p: continue
+        x0 = [rint(rng, 2) for _ in range(n)]; s0 = interior_point(rng, dims); z0 = interior_point(rng, dims); y0 = [rint(rng, 2) for _ in range(p)]
+        h = [a + b for a, b in zip(matvec(G, x0), s0)]; b = matvec(A, x0)
+        P = None; Px0 = [0.0] * n
+        if qp:
+            dg = [float(rng.randint(0, 2)) for _ in range(n)]; P = [[dg[i] if i == j else 0.0 for i in range(n)] for j in range(n)]
+            for _k in range(2):
+                i, j = rng.randrange(n), rng.randrange(n)
+                if i != j: P[i][j] += 0.5; P[j][i] += 0.5; P[i][i] += 1.0; P[j][j] += 1.0          # stays positive semidefinite (diagonally dominant)
+            Px0 = matvec(P, x0)
+        c = [-(a + bb + pp) for a, bb, pp in zip(mattvec(G, z0), mattvec(A, y0), Px0)]
+        return Planted(kind='optimal', c=c, G=G, h=h, A=A, b=b, dims=dims, n=n, p=p, N=m, P=P, wit={'x': x0, 's': s0, 'z': z0, 'y': y0})
+    raise RuntimeError('no instance found')
+
 def rankdef_conelp(rng, first=False):
     """an unbounded epigraph LP  min t  s.t.  -a*y <= b,  y_k + w - t <= 0  whose columns for w and t are collinear, so Rank([G;A]) < n:
     conelp's rank assumption fails silently (no ArithmeticError) and its least-squares starting point has zero gap but dres = 1."""
